@@ -32,6 +32,7 @@ class Config:
     context: Optional[tuple] = None  # tuple of (key, value)
     emit: tuple = ()                 # tuple of (node index, emit pattern) - C19
     fault_exc: str = 'boom'          # what a faulty task raises: 'boom' (Exception) | 'exit' (SystemExit)
+    corrupt: tuple = ()              # pre-cached nodes whose stored result file is damaged (metadata intact)
 
     def to_json(self):
         d = asdict(self)
@@ -45,14 +46,16 @@ class Config:
                       precached=tuple(d['precached']), faults=tuple(d['faults']), died=tuple(d['died']),
                       bust_cache=d['bust_cache'], cof=d['cof'], batch=d['batch'], stutter=d['stutter'],
                       context=None if d['context'] is None else tuple(tuple(x) for x in d['context']),
-                      emit=tuple(tuple(x) for x in d.get('emit', ())), fault_exc=d.get('fault_exc', 'boom'))
+                      emit=tuple(tuple(x) for x in d.get('emit', ())), fault_exc=d.get('fault_exc', 'boom'),
+                      corrupt=tuple(d.get('corrupt', ())))
 
     def brief(self):
         return {'deps': self.spec.deps, 'types': self.spec.types, 'place': self.spec.place,
                 'labels': self.spec.labels, 'dup': self.spec.dup, 'requested': self.requested,
                 'precached': self.precached, 'faults': self.faults, 'died': self.died,
                 'bust': self.bust_cache, 'cof': self.cof, **({'emit': self.emit} if self.emit else {}),
-                **({'fault_exc': self.fault_exc} if self.fault_exc != 'boom' else {})}
+                **({'fault_exc': self.fault_exc} if self.fault_exc != 'boom' else {}),
+                **({'corrupt': self.corrupt} if self.corrupt else {})}
 
 
 @dataclass
@@ -75,7 +78,7 @@ def run_once(cfg: Config, chooser: Chooser) -> Obs:
     built = Built(spec)
     storage = MemStorage()
     try:
-        precache(storage, spec, built, cfg.precached, ctx)
+        precache(storage, spec, built, cfg.precached, ctx, corrupt=cfg.corrupt)
         fault_labels = [spec.labels[i] for i in cfg.faults]
         died_labels = [spec.labels[i] for i in cfg.died]
         U.WORLD.reset(epoch=1, faults=fault_labels, fault_exc=cfg.fault_exc)
@@ -94,7 +97,7 @@ def run_once(cfg: Config, chooser: Chooser) -> Obs:
         except BaseException as e:  # noqa
             outcome = ('raise', e)
         ref = reference(spec, [i for i, _ in cfg.requested], precached=cfg.precached, faults=cfg.faults,
-                        died=cfg.died, bust_cache=cfg.bust_cache, context=ctx, pre_context=ctx)
+                        died=cfg.died, bust_cache=cfg.bust_cache, context=ctx, pre_context=ctx, corrupt=cfg.corrupt)
         metas = {}
         if backend.runner is not None:
             metas = dict(getattr(backend.runner, 'metas', {}))
